@@ -116,6 +116,17 @@ let dump_reader (oc : out_channel) (r : reader) (qs : (string * string) list) (i
     List.sort_uniq (fun a b -> Int64.unsigned_compare a b) (List.map (fun (a, _) -> i64_of_n a) idmap)
   in
   Printf.fprintf oc "N %d %d %s %s\n" (List.length all) (List.length sorted_ids) (string_of_n (r_min r)) (string_of_n (r_max r));
+  (* summary of NewReader: streams at both ends of the by-first-time and by-last-time lookups *)
+  (let f = r.r_file in
+   let arr = Array.of_list f.f_streams in
+   let pick l k = arr.(int_of_n (List.nth l k)) in
+   let nl = List.length f.f_by_ftime in
+   if nl > 0 && Array.length arr > 0 then begin
+     let refns = Int64.mul (i64_of_n f.f_ref) 1000000000L in
+     let abs x = Printf.sprintf "%Lu" (Int64.add refns (i64_of_n x)) in
+     Printf.fprintf oc "X %s %s %s %s\n" (abs (pick f.f_by_ftime 0).st_first) (abs (pick f.f_by_ftime (nl - 1)).st_first)
+       (abs (pick f.f_by_ltime 0).st_last) (abs (pick f.f_by_ltime (nl - 1)).st_last)
+   end);
   output_string oc "IDS";
   List.iter (fun i -> Printf.fprintf oc " %Lu" i) sorted_ids;
   output_string oc "\n";
